@@ -1,5 +1,5 @@
 (* C19 — AWS node removal hits only the right instances and respects the ASG minimum.  Theorems only. *)
-From Esc Require Import SpecAws Examples proofs.AwsProofs proofs.ScanLemmas proofs.ScanOrder.
+From Esc Require Import SpecAws Examples proofs.AwsProofs proofs.ScanLemmas proofs.ScanOrder proofs.ScanParser proofs.ScanRun proofs.ScanRunTheorems.
 
 (* provider: the request is refused as a whole, with no AWS call, when it would breach the minimum *)
 Theorem c19_refuse : forall a nodes fails,
@@ -61,8 +61,26 @@ Theorem c19_budget : forall now gdry api g a nodes pods,
 Proof. exact group_budget_C19. Qed.
 Print Assumptions c19_budget.
 
+(* the journal checker evaluated on observed scans (runs of terminate calls, blocks of Node deletes: a delete block
+   names, in order, nodes backed by a suffix of the all-accepted terminate run directly before it; plus the budget)
+   accepts every journal the model produces, for every state and oracle *)
+Theorem c19_model_passes_scan_checker : forall now gdry api g a nodes pods,
+  check_C19_group (ctx_of now gdry api g a nodes pods) (r_calls (scan_of now gdry api g a nodes pods)) = true.
+Proof. exact group_passes_C19. Qed.
+Print Assumptions c19_model_passes_scan_checker.
+
+Theorem c19_run_once_full : forall s, wf_groups s -> for_groups check_C19_group s (run_journals s) = true.
+Proof. exact run_passes_C19. Qed.
+Print Assumptions c19_run_once_full.
+
 (* non-vacuity: in the sample world the force-tainted node's instance is terminated and only then its Node object
    deleted, then the same for the hard-expired node *)
 Example c19_ex : removal_targets (r_calls (ex_scan ex_opts gstate0 4800))
                = [(Some [105; 51], None); (None, Some 203); (Some [105; 50], None); (None, Some 202)].
 Proof. vm_compute. reflexivity. Qed.
+
+(* over a whole RunOnce: the checker evaluated by the correspondence holds of every group journal the model produces
+   (group names and cloud group names pairwise distinct) *)
+Theorem c19_run_once : forall s, wf_groups s -> for_groups check_C19_budget s (run_journals s) = true.
+Proof. exact run_passes_C19_budget. Qed.
+Print Assumptions c19_run_once.
